@@ -21,11 +21,13 @@ for p in props:
     if getattr(mod, 'NOT_APPLICABLE', None):
         na.append(dict(property_id=pid, reason=mod.NOT_APPLICABLE))
         continue
-    obs = mod.OBLIGATIONS
+    adv = [o for o in mod.OBLIGATIONS if o[0].split('.')[-1] in ('A', 'V')]
+    obs = [o for o in mod.OBLIGATIONS if o not in adv]
     text = ('Static rule checking over the typed MIR of the current tree (%d obligations: %s). Each obligation is a '
             'necessary structural condition of the property that holds on every path of the control-flow graph; a green '
-            'result means all of them hold, it does not mean the behavioural property holds. Undecided: %s'
-            % (len(obs), '; '.join('%s %s' % (o[0], o[1]) for o in obs), '; '.join(mod.NOT_DECIDED) or 'nothing essential'))
+            'result means all of them hold, it does not mean the behavioural property holds. Advisory only (printed as REVIEW lines, never an alarm, because they compare '
+            'spellings and fire on behaviour-preserving refactorings): %s. Extracted helper functions are spliced back into their callers before the rules run. Undecided: %s'
+            % (len(obs), '; '.join('%s %s' % (o[0], o[1]) for o in obs), ', '.join('%s %s' % (o[0], o[1]) for o in adv) or 'none', '; '.join(mod.NOT_DECIDED) or 'nothing essential'))
     checks.append(dict(
         property_id=pid,
         quick_cmd='./check %s --tier quick' % pid,
